@@ -22,7 +22,7 @@ EXPLANATION = (
     "values and is decided before the handler is called; the pause path raises and returns nothing; (R5) every nested run result in the async "
     "graph-node executor passes through the converter that re-raises with '<node>/<inner>', and the separator equals the one PauseInfo splits on; "
     "(R6) the partial-state attribute has the same name at the writer and the reader; (R7) a PAUSED nested result is never consumed as data: the map "
-    "branch and the sync runner are guarded by an interrupt-reachability predicate that is closed under nesting. (R8) the PauseExecution handler of run() filters the values computed before the pause with the non-raising default policy, so a pause always yields the PAUSED result."
+    "branch and the sync runner are guarded by an interrupt-reachability predicate that is closed under nesting. (R8) the PauseExecution handler of run() filters the values computed before the pause with the non-raising default policy, so a pause always yields the PAUSED result. R4 also requires that the 'None means pause' test is applied to the handler's resolved answer (awaited when awaitable on every path before it is compared); (R9) the pause description is built in the graph's name space (qualifier inference over the interrupt executor)."
 )
 NOT_DECIDED = "That pause followed by resume ends exactly as the auto-resolved run (a statement about computed values and histories); ordering of several interrupts beyond 'one per step'."
 
